@@ -53,7 +53,8 @@ def scenario(rng, nops, collide=False):
             elif x < 0.44: lines.append("erase %d" % key())
             elif x < 0.50: lines.append("find %d" % key())
             elif x < 0.54: lines.append("contains %d" % key())
-            elif x < 0.60: lines.append("upsert %d %d" % (key(), rng.randrange(1000)))
+            elif x < 0.58: lines.append("upsert %d %d" % (key(), rng.randrange(1000)))
+            elif x < 0.60: lines.append("race %d %d" % (rng.choice([20, 60]), rng.randrange(1, 100)))
             elif x < 0.64: lines.append("find_fn %d" % key())
             elif x < 0.68: lines.append("update_fn %d" % key())
             elif x < 0.72: lines.append("erase_fn %d" % key())
